@@ -507,6 +507,12 @@ fn svd_case(rng: &mut Rng) {
             let want = d.sv[..=last].iter().filter(|s| **s > t).count();
             v.require((d.rank_fn)(t) == want, "svd.rank_method_counts_singular_values_above_tol", || format!("{} vs {want} at tol {t:e}, sv {:?}", (d.rank_fn)(t), d.sv));
         }
+        // "tol: the largest value that a singular value can have and still be considered zero": a singular value
+        // equal to the threshold is not counted
+        for k in 0..=last {
+            let want = d.sv[..=last].iter().filter(|s| **s > d.sv[k]).count();
+            v.require((d.rank_fn)(d.sv[k]) == want, "svd.rank_method_does_not_count_a_value_equal_to_tol", || format!("{} vs {want} at tol = sv[{k}], sv {:?}", (d.rank_fn)(d.sv[k]), d.sv));
+        }
         for i in 0..=last {
             let want = d.sv[i] * d.sv[i] / n as f64;
             v.require((d.vars[i] - want).abs() <= 1e-12 * want.abs(), "svd.basis_variances_are_sigma_squared_over_n", || format!("axis {i}: {:e} vs {want:e}", d.vars[i]));
